@@ -635,25 +635,45 @@ func goroutineOwners(fn *ssa.Function, fns []*ssa.Function, depth int) [][2]stri
 		return [][2]string{{an.NameOf(root), an.NameOf(fn)}}
 	}
 	self := [][2]string{{an.NameOf(fn), an.NameOf(fn)}}
-	if depth > 4 || fn.Object() == nil || fn.Object().Exported() || fn.Signature.Recv() != nil {
+	if depth > 4 || fn.Object() == nil || fn.Object().Exported() {
 		return self
 	}
 	var out [][2]string
 	seen := map[[2]string]bool{}
 	escapes := false
 	for _, caller := range fns {
+		if caller.Synthetic != "" {
+			continue
+		}
 		an.AllInstrs(caller, func(in ssa.Instruction) {
 			cc := an.CallOf(in)
+			// the function (or the method value x.fn) handed to errgroup.Group.Go is a goroutine started by the caller
+			spawned := false
+			if call, ok := in.(*ssa.Call); ok && an.CalleeIs(&call.Call, "errgroup", "Group.Go") && len(call.Call.Args) == 2 {
+				if _, lit := an.Unwrap(call.Call.Args[1]).(*ssa.MakeClosure); an.ClosureFn(call.Call.Args[1]) == fn && (fn.Parent() == nil || !lit) {
+					spawned = true
+				}
+			}
+			if mc, ok := in.(*ssa.MakeClosure); ok && !spawned {
+				if w, ok := mc.Fn.(*ssa.Function); ok && w != fn && an.BoundTarget(w) == fn {
+					// a method value: fine when its only use is as the argument of errgroup.Group.Go (handled at that call)
+					for _, ref := range *mc.Referrers() {
+						if call, ok := ref.(*ssa.Call); !ok || !an.CalleeIs(&call.Call, "errgroup", "Group.Go") {
+							escapes = true
+						}
+					}
+				}
+			}
 			for _, op := range in.Operands(nil) {
-				if op != nil && *op == ssa.Value(fn) && (cc == nil || cc.Value != ssa.Value(fn)) {
+				if op != nil && *op == ssa.Value(fn) && (cc == nil || cc.Value != ssa.Value(fn)) && !spawned {
 					escapes = true
 				}
 			}
-			if cc == nil || an.StaticCallee(cc) != fn {
+			if !spawned && (cc == nil || an.StaticCallee(cc) != fn) {
 				return
 			}
 			var os [][2]string
-			if _, isGo := in.(*ssa.Go); isGo {
+			if _, isGo := in.(*ssa.Go); isGo || spawned {
 				root := caller
 				for root.Parent() != nil {
 					root = root.Parent()
